@@ -78,7 +78,14 @@ fn kmeans_model(r: &mut Runner) {
         };
         let q = pool::<F>(3, Some(&x));
         let obs = |m: &KMeans<F, D>| kmeans_obs(m, &q);
-        round_trip(o, &Spec::full(&obs), &m);
+        // one more mini-batch step from the (restored) model
+        let batch = Dataset::from(x.slice(ndarray::s![0..30, ..]).to_owned());
+        let advance = |m: &KMeans<F, D>| match params.fit_with(Some(m.clone()), &batch) {
+            Ok(m) => m,
+            Err(IncrKMeansError::NotConverged(m)) => m,
+            Err(e) => panic!("fit_with: {:?}", e),
+        };
+        round_trip(o, &Spec::full(&obs).mutating(&advance), &m);
     }
     r.inst("f64/L2/kmeans++", |o| go::<f64, _>(o, L2Dist, KMeansInit::KMeansPlusPlus, false));
     r.inst("f64/L1/random", |o| go::<f64, _>(o, L1Dist, KMeansInit::Random, false));
@@ -546,7 +553,8 @@ fn gnb_model(r: &mut Runner) {
             ob.bools("continued_models_equal_self", [cont == cont.clone()]);
             ob.done()
         };
-        round_trip(o, &Spec::full(&obs).with_maps(), &m);
+        let advance = |m: &GaussianNb<F, L>| vp.fit_with(Some(m.clone()), &ds2).expect("fit_with").expect("model");
+        round_trip(o, &Spec::full(&obs).with_maps().mutating(&advance), &m);
     }
     r.inst("f64/usize_labels", |o| go::<f64, usize>(o, |c| c, 1e-9));
     r.inst("f64/string_labels", |o| go::<f64, String>(o, |c| ["cat", "dog", "ant"][c].to_string(), 1e-9));
@@ -606,7 +614,8 @@ fn mnb_model(r: &mut Runner) {
             label_bits(&mut ob, "predict.after_fit_with", &cont.predict(&q));
             ob.done()
         };
-        round_trip(o, &Spec::full(&obs).with_maps(), &m);
+        let advance = |m: &MultinomialNb<F, L>| vp.fit_with(Some(m.clone()), &ds2).expect("fit_with").expect("model");
+        round_trip(o, &Spec::full(&obs).with_maps().mutating(&advance), &m);
     }
     r.inst("f64/usize_labels", |o| go::<f64, usize>(o, |c| c, 1.0));
     r.inst("f64/string_labels", |o| go::<f64, String>(o, |c| ["spam", "ham", "eggs"][c].to_string(), 0.5));
